@@ -86,6 +86,7 @@ class ConnRun:
             password="pw" if cfg.get("password") else None,
             keepalive=cfg["K"] / 1000.0,
             dev_name="dev",
+            naddr=cfg.get("naddr", 1),
         )
         self.loop = self.w.loop
         self.rows: list[dict] = []
@@ -466,7 +467,7 @@ class ConnRun:
 
     def finish(self) -> dict:
         self.settle()
-        tr = {"cfg": {"noise": self.cfg["noise"], "exp": self.cfg["exp"], "login": self.cfg["login"], "K": self.cfg["K"]}, "rows": self.rows}
+        tr = {"cfg": {"noise": self.cfg["noise"], "exp": self.cfg["exp"], "login": self.cfg["login"], "K": self.cfg["K"], "naddr": self.cfg.get("naddr", 1)}, "rows": self.rows}
         errs = list(self.w.codec.format_errors) if self.w.codec else []
         self.unhandled = [repr(c.get("exception")) for c in self.loop.unhandled]
         self.loop.after_callback = None
@@ -520,6 +521,8 @@ CLOSERS = [{"k": "discreq"}, {"k": "garbage"}]
 
 
 def random_schedule(rng: random.Random, cfg: dict, n_events: int, p_fault: float, calls: bool, subs: bool) -> list:
+    if cfg.get("naddr", 1) == 2:
+        return _two_address_schedule(rng, cfg, n_events, p_fault)
     """A plausible random story: connect (possibly disturbed), traffic, close causes."""
     sch: list = []
 
@@ -861,3 +864,20 @@ def c03_conn_family(rng: random.Random) -> list:
                         st += [("idle",), ("ev", "chunk", hello + ex), ("idle",), ("ev", "chunk", ex), ("idle",), ("tick",)]
                         out.append((cfg, st))
     return out
+
+
+def _two_address_schedule(rng: random.Random, cfg: dict, n_events: int, p_fault: float) -> list:
+    """The host resolves to two addresses: the first TCP pass fails (error or 60 s), the second gets its own pass."""
+    sch = [("ev", "start"), ("idle",), ("ev", "resolve", "ok"), ("idle",)]
+    first = rng.choice(("err", "timeout", "ok", "okbad"))
+    sch += [("ev", "tcp", first)] if first != "timeout" else [("tick",)]
+    sch += rng.choice(([("idle",)], [("iter", 1)], []))
+    if rng.random() < 0.2:
+        sch += [rng.choice([("ev", "force"), ("ev", "disconnect"), ("ev", "cancel_op", "start")])] + rng.choice(([("idle",)], [("iter", 1)], []))
+    second = rng.choice(("err", "timeout", "ok", "ok"))
+    sch += ([("ev", "tcp", second)] if second != "timeout" else [("tick",)]) + [("idle",)]
+    sch += [("ev", "finish", cfg["login"]), ("idle",)]
+    if cfg["noise"]:
+        sch += [("ev", "handshake", "ok"), ("idle",)]
+    sch += [("ev", "chunk", [{"k": "hello", "major": 1, "name": "dev"}] + ([{"k": "connect", "invalid": False}] if cfg["login"] else [])), ("idle",), ("tick",), ("tick",)]
+    return sch
